@@ -2,12 +2,12 @@ CLAIMS["C18"] = dict(engine="seq",
   technique="exhaustive enumeration of small-domain inputs and deviation-bounded string generators on the real code against independent reference readers (three-valued), "
             "environment answers (errno on entry, variable values) enumerated, UB turned into traps by -fsanitize=signed-integer-overflow",
   text="(a) Resource::Merge on all pairs (thorough: triples, incl. associativity) of attribute maps over {a, b, service.name} x {absent, string, other type} x schema URLs {'', u1, u2}: "
-       "union, right operand wins, schema rule, operands unchanged, empty resource neutral. OTELResourceDetector::Detect over seeds + all single (thorough: double) point mutations of "
+       "union, right operand wins, schema rule, operands unchanged, empty resource neutral. OTELResourceDetector::Detect over 16 seeds + all single point mutations (plus all double mutations of the seeds of <= 6, thorough <= 12 bytes) of "
        "OTEL_RESOURCE_ATTRIBUTES values x 5 OTEL_SERVICE_NAME values against an independent key=value reader. Resource::Create in a child forked inside the execution per environment "
-       "assignment (13 quick / 150 thorough list values x {unset, '', name}) x 6 user attribute maps x 2 schema URLs against defaults (+) env (+) user + service.name fallback. "
+       "assignment (40 quick / 150 thorough list values x {unset, '', name}) x 6 user attribute maps x 2 schema URLs against defaults (+) env (+) user + service.name fallback. "
        "(b) Get{Bool,Uint,Duration,Float,String}EnvironmentVariable and GetSdkDisabled over per-reader generators (all letter cases; 0, 1, 2^32-1, 2^32, 2^64-1, 2^64, 25 digits, signs, "
-       "blanks, hex; 29 counts x 7 units incl. 2^63-adjacent, 25-digit and unit-conversion-overflowing values; float overflow/underflow/nan/inf/junk; single (thorough: double) point "
-       "mutations) x errno on entry in {0, ERANGE}: documented syntax => true + exact value, libc leniency (leading blank, '+', zero durations, float sign/exponent/hex/inf/nan) => exact "
+       "blanks, hex; 29 counts x 7 units incl. 2^63-adjacent, 25-digit and unit-conversion-overflowing values; float overflow/underflow/nan/inf/junk; all single and class-restricted double point "
+       "mutations of short seeds, thorough: full double mutations of the shortest seeds) x errno on entry in {0, ERANGE}: documented syntax => true + exact value, libc leniency (leading blank, '+', zero durations, float sign/exponent/hex/inf/nan) => exact "
        "value or default, anything else => default, never a wrapped or partial value. (c) Tracer/Logger/MeterProvider x construction path x 4 resources x scopes x items: every exported "
        "span / log record / metric batch references its provider's resource object; sdk Provider::Set*Provider honours OTEL_SDK_DISABLED over 9 values.",
   note=SEQ_NOTE + " Percent-decoding of OTEL_RESOURCE_ATTRIBUTES values is not part of the statement and not checked; batch processors and periodic readers are not used in part (c).")
